@@ -1,2 +1,1092 @@
-(* ConcInternProofs.v — being written *)
+(* ConcInternProofs.v — property C03 (concurrent interning is atomic) for the interleaving
+   model Conc.v: the invariant JInv of ConcInv.v (strengthened to JInv') holds in every
+   reachable state, for every schedule, every number of threads and every pattern of spurious
+   CAS failures; the C03 clauses are corollaries.  The storage invariant AInv (proved in
+   ConcArenaProofs.v by another worker) is only ever assumed of states, never proved here. *)
 From Lasso Require Import Base Arena ArenaProofs Conc ConcInv.
+From Coq Require Import Permutation.
+
+(* ------------------------------------------------------------------ list helpers *)
+
+Lemma nth_error_set_nth_eq {A} n (y : A) l x :
+  nth_error l n = Some x -> nth_error (set_nth n y l) n = Some y.
+Proof.
+  revert n; induction l as [|a l IH]; intros [|n] H; simpl in *; try discriminate; auto.
+Qed.
+
+Lemma nth_error_set_nth_neq {A} n m (y : A) l :
+  m <> n -> nth_error (set_nth n y l) m = nth_error l m.
+Proof.
+  revert n m; induction l as [|a l IH]; intros [|n] [|m] H; simpl in *; auto; try congruence.
+Qed.
+
+(* a thread of the new list is the new thread or an old thread at another position *)
+Lemma nth_error_set_nth_inv {A} n m (y u : A) l x :
+  nth_error l n = Some x -> nth_error (set_nth n y l) m = Some u ->
+  (m = n /\ u = y) \/ (m <> n /\ nth_error l m = Some u).
+Proof.
+  intros Hn Hm. destruct (Nat.eq_dec m n) as [->|Hne].
+  - left. rewrite (nth_error_set_nth_eq _ _ _ _ Hn) in Hm. split; congruence.
+  - right. rewrite nth_error_set_nth_neq in Hm by auto. auto.
+Qed.
+
+Lemma In_set_nth_inv {A} n (y u : A) l :
+  In u (set_nth n y l) -> u = y \/ exists m, m <> n /\ nth_error l m = Some u.
+Proof.
+  revert n; induction l as [|a l IH]; intros [|n] H; simpl in *; try contradiction.
+  - destruct H as [H|H]; [left; congruence|].
+    right. apply In_nth_error in H as (m & Hm). exists (S m). split; [lia|exact Hm].
+  - destruct H as [H|H].
+    + right. exists 0%nat. split; [lia|]. simpl. congruence.
+    + apply IH in H as [H|(m & Hne & Hm)]; [left; auto|].
+      right. exists (S m). split; [lia|exact Hm].
+Qed.
+
+Lemma In_set_nth_old {A} n (y u : A) l : In u (set_nth n y l) -> u = y \/ In u l.
+Proof.
+  intros H. apply In_set_nth_inv in H as [H|(m & _ & Hm)]; auto.
+  right. eapply nth_error_In; eauto.
+Qed.
+
+Lemma In_set_nth_new {A} n (y : A) l x : nth_error l n = Some x -> In y (set_nth n y l).
+Proof. intros H. eapply nth_error_In. eapply nth_error_set_nth_eq; eauto. Qed.
+
+Lemma In_set_nth_keep {A} n (y u : A) l x :
+  nth_error l n = Some x -> In u l -> u = x \/ In u (set_nth n y l).
+Proof.
+  intros Hn Hu. apply In_nth_error in Hu as (m & Hm).
+  destruct (Nat.eq_dec m n) as [->|Hne].
+  - left. congruence.
+  - right. eapply nth_error_In. rewrite nth_error_set_nth_neq; eauto.
+Qed.
+
+Lemma set_nth_split {A} n (y : A) l x :
+  nth_error l n = Some x ->
+  exists l1 l2, l = l1 ++ x :: l2 /\ set_nth n y l = l1 ++ y :: l2.
+Proof.
+  revert n; induction l as [|a l IH]; intros [|n] H; simpl in *; try discriminate.
+  - inversion H; subst. exists [], l. auto.
+  - apply IH in H as (l1 & l2 & -> & ->). exists (a :: l1), l2. auto.
+Qed.
+
+Lemma flat_map_set_nth_same {A B} (f : A -> list B) n y l x :
+  nth_error l n = Some x -> f y = f x -> flat_map f (set_nth n y l) = flat_map f l.
+Proof.
+  intros Hn Hf. destruct (set_nth_split n y l x Hn) as (l1 & l2 & -> & ->).
+  rewrite !flat_map_app. simpl. now rewrite Hf.
+Qed.
+
+(* the moving thread's contribution changes from [f x] to [f y] *)
+Lemma flat_map_set_nth_perm {A B} (f : A -> list B) n y l x :
+  nth_error l n = Some x ->
+  exists rest, Permutation (flat_map f l) (f x ++ rest) /\
+               Permutation (flat_map f (set_nth n y l)) (f y ++ rest).
+Proof.
+  intros Hn. destruct (set_nth_split n y l x Hn) as (l1 & l2 & -> & ->).
+  exists (flat_map f l1 ++ flat_map f l2). rewrite !flat_map_app. simpl. split.
+  - apply Permutation_app_swap_app.
+  - apply Permutation_app_swap_app.
+Qed.
+
+Lemma find_ext_in {A} (p q : A -> bool) l :
+  (forall x, In x l -> p x = q x) -> find p l = find q l.
+Proof.
+  induction l as [|a l IH]; intros H; simpl; auto.
+  rewrite (H a) by (left; auto). destruct (q a); auto. apply IH. intros; apply H; right; auto.
+Qed.
+
+Lemma NoDup_map_inj_in {A B} (f : A -> B) l a b :
+  NoDup (map f l) -> In a l -> In b l -> f a = f b -> a = b.
+Proof.
+  induction l as [|x l IH]; simpl; intros Hnd Ha Hb Hf; [contradiction|].
+  inversion Hnd as [|? ? Hx Hnd']; subst.
+  destruct Ha as [->|Ha], Hb as [->|Hb]; auto.
+  - exfalso. apply Hx. rewrite Hf. now apply in_map.
+  - exfalso. apply Hx. rewrite <- Hf. now apply in_map.
+Qed.
+
+Lemma NoDup_map_filter {A B} (f : A -> B) p l : NoDup (map f l) -> NoDup (map f (filter p l)).
+Proof.
+  induction l as [|x l IH]; simpl; intros H; auto.
+  inversion H as [|? ? Hx Hnd]; subst. destruct (p x); simpl; auto.
+  constructor; auto. intros Hin. apply Hx.
+  apply in_map_iff in Hin as (z & <- & Hz). apply filter_In in Hz as [Hz _]. now apply in_map.
+Qed.
+
+Lemma filter_all {A} (p : A -> bool) l : (forall x, In x l -> p x = true) -> filter p l = l.
+Proof.
+  induction l as [|x l IH]; simpl; intros H; auto.
+  rewrite (H x) by auto. f_equal. apply IH. auto.
+Qed.
+
+Lemma NoDup_N_seq m : NoDup (map N.of_nat (seq 0 m)).
+Proof.
+  apply FinFun.Injective_map_NoDup; [|apply seq_NoDup].
+  intros a b H. now apply Nat2N.inj.
+Qed.
+
+Lemma In_N_seq m k : In k (map N.of_nat (seq 0 m)) <-> k < N.of_nat m.
+Proof.
+  rewrite in_map_iff. split.
+  - intros (x & <- & Hx). apply in_seq in Hx. lia.
+  - intros H. exists (N.to_nat k). split; [apply N2Nat.id|]. apply in_seq. lia.
+Qed.
+
+(* a duplicate-free list of numbers all below n has at most n members *)
+Lemma NoDup_below_length l n :
+  NoDup l -> (forall k, In k l -> k < n) -> N.of_nat (length l) <= n.
+Proof.
+  intros Hnd H.
+  assert (Hle : (length l <= length (map N.of_nat (seq 0 (N.to_nat n))))%nat).
+  { apply NoDup_incl_length; auto. intros k Hk. apply In_N_seq. rewrite N2Nat.id. auto. }
+  rewrite map_length, seq_length in Hle. lia.
+Qed.
+
+(* the counting step: a duplicate-free list whose members are exactly the numbers below n
+   has n members *)
+Lemma NoDup_exact_length l n :
+  NoDup l -> (forall k, In k l <-> k < n) -> N.of_nat (length l) = n.
+Proof.
+  intros Hnd H.
+  assert (Hp : Permutation l (map N.of_nat (seq 0 (N.to_nat n)))).
+  { apply NoDup_Permutation; auto using NoDup_N_seq.
+    intros k. rewrite In_N_seq, N2Nat.id. apply H. }
+  apply Permutation_length in Hp. rewrite map_length, seq_length in Hp. lia.
+Qed.
+
+(* ------------------------------------------------------------------ locks *)
+
+Lemma locks_one_holder (l : list (N * nat)) sh a b :
+  NoDup (map fst l) -> In (sh, a) l -> In (sh, b) l -> a = b.
+Proof.
+  intros Hnd Ha Hb.
+  assert (H : (sh, a) = (sh, b)) by (eapply NoDup_map_inj_in; eauto).
+  congruence.
+Qed.
+
+Lemma In_unlock c tid sh h : In (sh, h) (unlock c tid) <-> In (sh, h) (c_locks c) /\ h <> tid.
+Proof.
+  unfold unlock. rewrite filter_In. simpl. rewrite negb_true_iff, Nat.eqb_neq. tauto.
+Qed.
+
+Lemma lock_holder_none c sh : lock_holder c sh = None -> ~ In sh (map fst (c_locks c)).
+Proof.
+  unfold lock_holder. destruct (find _ _) eqn:E; [discriminate|]. intros _ Hin.
+  apply in_map_iff in Hin as (x & Hx & Hin). eapply find_none in E; eauto.
+  simpl in E. rewrite Hx, N.eqb_refl in E. discriminate.
+Qed.
+
+Lemma lock_holder_some c sh h : lock_holder c sh = Some h -> In (sh, h) (c_locks c).
+Proof.
+  unfold lock_holder. destruct (find _ _) as [[a b]|] eqn:E; [|discriminate].
+  intros H. inversion H; subst. apply find_some in E as [Hin Hp]. simpl in *.
+  apply N.eqb_eq in Hp. subst. auto.
+Qed.
+
+Section Proofs.
+  Variable shard_of : str -> N.
+  Variable keycap : N.
+
+  Notation step := (step shard_of keycap).
+  Notation step_gen := (step_gen shard_of keycap).
+  Notation reachable := (reachable shard_of keycap).
+  Notation JInv := (JInv shard_of keycap).
+  Notation blocked := (blocked shard_of).
+  Notation try_key := (try_key keycap).
+
+  (* ---------------------------------------------------------------- lookups, via ghost strings *)
+
+  Lemma map_denotes c e : AInv c -> JInv c -> In e (c_map c) ->
+    read (as_arena c) (e_ref e) = Some (e_str e).
+  Proof.
+    intros HA HJ Hin. apply (ji_map_in_strs _ _ _ HJ) in Hin.
+    pose proof (ai_strs_denote _ HA) as HF. rewrite Forall_forall in HF.
+    apply HF in Hin. apply Hin.
+  Qed.
+
+  Lemma map_get_spec c s : AInv c -> JInv c ->
+    map_get c s = match find (fun e => str_eqb s (e_str e)) (c_map c) with
+                  | Some e => Some (e_key e) | None => None end.
+  Proof.
+    intros HA HJ. unfold map_get.
+    rewrite (find_ext_in _ (fun e => str_eqb s (e_str e))); auto.
+    intros e Hin. now rewrite (map_denotes c e HA HJ Hin).
+  Qed.
+
+  Lemma map_get_some c s k : AInv c -> JInv c ->
+    (map_get c s = Some k <-> exists e, In e (c_map c) /\ e_str e = s /\ e_key e = k).
+  Proof.
+    intros HA HJ. rewrite map_get_spec by auto. split.
+    - destruct (find _ _) as [e|] eqn:E; [|discriminate]. intros H. inversion H; subst.
+      apply find_some in E as [Hin Hp]. apply str_eqb_eq in Hp. exists e. auto.
+    - intros (e & Hin & Hs & Hk).
+      destruct (find _ _) as [e'|] eqn:E.
+      + apply find_some in E as [Hin' Hp]. apply str_eqb_eq in Hp.
+        assert (e' = e).
+        { apply (NoDup_map_inj_in e_str (c_map c)); auto; [|congruence].
+          apply (ji_map_strs_nodup _ _ _ HJ). }
+        subst. auto.
+      + eapply find_none in E; eauto. simpl in E. rewrite Hs, str_eqb_refl in E. discriminate.
+  Qed.
+
+  Lemma map_get_none c s : AInv c -> JInv c ->
+    (map_get c s = None <-> ~ In s (strs_of (c_map c))).
+  Proof.
+    intros HA HJ. rewrite map_get_spec by auto. split.
+    - destruct (find _ _) as [e|] eqn:E; [discriminate|]. intros _ Hin.
+      apply in_map_iff in Hin as (e & He & Hin). eapply find_none in E; eauto.
+      simpl in E. rewrite He, str_eqb_refl in E. discriminate.
+    - intros Hn. destruct (find _ _) as [e|] eqn:E; auto.
+      apply find_some in E as [Hin Hp]. apply str_eqb_eq in Hp. exfalso. apply Hn.
+      subst. apply in_map. auto.
+  Qed.
+
+  Lemma strs_get_in c e : NoDup (keys_of (c_strs c)) -> In e (c_strs c) ->
+    strs_get c (e_key e) = Some (e_ref e).
+  Proof.
+    intros Hnd Hin. unfold strs_get. destruct (find _ _) as [e'|] eqn:E.
+    - apply find_some in E as [Hin' Hp]. apply N.eqb_eq in Hp.
+      assert (e' = e) by (eapply (NoDup_map_inj_in e_key); eauto). subst. auto.
+    - eapply find_none in E; eauto. simpl in E. rewrite N.eqb_refl in E. discriminate.
+  Qed.
+
+  (* ---------------------------------------------------------------- the strengthened invariant *)
+
+  Definition str_of_call (cl : call) : option str :=
+    match cl with CIntern s | CInternStatic _ s | CGet s => Some s | _ => None end.
+
+  (* [cl] is a call that interns [s] *)
+  Definition intern_of (cl : call) (s : str) : Prop :=
+    cl = CIntern s \/ exists a, cl = CInternStatic a s.
+
+  (* the call a thread is executing is about the string in its program counter *)
+  Definition pc_call_ok (t : thread) : Prop :=
+    match t_pc t with
+    | PFast cl => t_call t = cl
+    | PLock s | PFind s | PStore s _ | PKeyAdd s _ => t_call t = CIntern s
+    | PEntry a s | PSKeyAdd a s => t_call t = CInternStatic a s
+    | PStrs s _ _ | PMap s _ _ => intern_of (t_call t) s
+    | _ => True
+    end.
+
+  Record JExtra (c : cstate) : Prop := {
+    jx_call : forall t, In t (c_threads c) -> pc_call_ok t;
+    (* history: every string -> key entry was published by a completed intern call *)
+    jx_published : forall e, In e (c_map c) ->
+      exists t cl, In t (c_threads c) /\ In (cl, ROk (e_key e)) (t_outs t) /\ intern_of cl (e_str e)
+  }.
+
+  Definition JInv' (c : cstate) : Prop := JInv c /\ JExtra c.
+
+  (* what [ji_answers] promises about one recorded answer *)
+  Definition answer_ok (c : cstate) (cl : call) (k : N) : Prop :=
+    exists s, (cl = CIntern s \/ (exists a, cl = CInternStatic a s) \/ cl = CGet s) /\
+              exists e, In e (c_map c) /\ e_key e = k /\ e_str e = s.
+
+  (* ---------------------------------------------------------------- 1. the initial state *)
+
+  Lemma init_JInv' cap lim progs : JInv' (init cap lim progs).
+  Proof.
+    assert (Hpc : forall t, In t (c_threads (init cap lim progs)) -> t_pc t = PIdle /\ t_outs t = []).
+    { intros t Hin. simpl in Hin. apply in_map_iff in Hin as (p & <- & _). auto. }
+    assert (Hd : drawn_keys (init cap lim progs) = []).
+    { unfold drawn_keys. simpl. clear Hpc. induction progs as [|p ps IH]; simpl; auto. }
+    split; constructor; simpl c_map; simpl c_strs; simpl c_locks; simpl c_key; try rewrite Hd;
+      simpl; try (now constructor); try (intros; contradiction).
+    - intros tid t s Hn Hh. apply nth_error_In in Hn. apply Hpc in Hn as [Hn _].
+      unfold holds in Hh. rewrite Hn in Hh. discriminate.
+    - intros tid t s _ _ _ H. exact H.
+    - intros t s r k Hin Hp. apply Hpc in Hin as [Hin _]. congruence.
+    - intros k. split; [contradiction|]. lia.
+    - intros t cl k Hin Ho. apply Hpc in Hin as [_ Hin]. rewrite Hin in Ho. contradiction.
+    - intros t Hin. apply Hpc in Hin as [Hin _]. unfold pc_call_ok. now rewrite Hin.
+  Qed.
+
+  Lemma init_JInv cap lim progs : JInv (init cap lim progs).
+  Proof. apply init_JInv'. Qed.
+
+
+  (* ---------------------------------------------------------------- the shape of a transition *)
+
+  (* thread [tid] changes from [t] to [t']; all other threads stay as they are *)
+  Definition moves (c c' : cstate) (tid : nat) (t t' : thread) : Prop :=
+    nth_error (c_threads c) tid = Some t /\ c_threads c' = set_nth tid t' (c_threads c).
+
+  Lemma mv_nth c c' tid t t' m u : moves c c' tid t t' ->
+    nth_error (c_threads c') m = Some u ->
+    (m = tid /\ u = t') \/ (m <> tid /\ nth_error (c_threads c) m = Some u).
+  Proof. intros [Hn Ht] Hm. rewrite Ht in Hm. eapply nth_error_set_nth_inv; eauto. Qed.
+
+  Lemma mv_nth_new c c' tid t t' : moves c c' tid t t' -> nth_error (c_threads c') tid = Some t'.
+  Proof. intros [Hn Ht]. rewrite Ht. eapply nth_error_set_nth_eq; eauto. Qed.
+
+  Lemma mv_nth_other c c' tid t t' m : moves c c' tid t t' -> m <> tid ->
+    nth_error (c_threads c') m = nth_error (c_threads c) m.
+  Proof. intros [Hn Ht] Hm. rewrite Ht. now apply nth_error_set_nth_neq. Qed.
+
+  Lemma mv_in c c' tid t t' u : moves c c' tid t t' ->
+    In u (c_threads c') -> u = t' \/ In u (c_threads c).
+  Proof. intros [Hn Ht] Hin. rewrite Ht in Hin. now apply In_set_nth_old in Hin. Qed.
+
+  Lemma mv_in_new c c' tid t t' : moves c c' tid t t' -> In t' (c_threads c').
+  Proof. intros [Hn Ht]. rewrite Ht. eapply In_set_nth_new; eauto. Qed.
+
+  Lemma mv_in_old c c' tid t t' : moves c c' tid t t' -> In t (c_threads c).
+  Proof. intros [Hn Ht]. eapply nth_error_In; eauto. Qed.
+
+  Lemma mv_keep c c' tid t t' u : moves c c' tid t t' ->
+    In u (c_threads c) -> u = t \/ In u (c_threads c').
+  Proof. intros [Hn Ht] Hin. rewrite Ht. eapply In_set_nth_keep; eauto. Qed.
+
+  Lemma mv_drawn_same c c' tid t t' : moves c c' tid t t' -> drawn_key t' = drawn_key t ->
+    drawn_keys c' = drawn_keys c.
+  Proof.
+    intros [Hn Ht] Hd. unfold drawn_keys. rewrite Ht.
+    apply (flat_map_set_nth_same _ _ _ _ _ Hn). now rewrite Hd.
+  Qed.
+
+  Lemma holds_none_drawn t : holds t = None -> drawn_key t = None /\ half_inserted t = None.
+  Proof. unfold holds, drawn_key, half_inserted. destruct (t_pc t); intros H; try discriminate; auto. Qed.
+
+  (* ---------------------------------------------------------------- clauses, by name *)
+
+  Definition LockInv (c : cstate) : Prop :=
+    NoDup (map fst (c_locks c)) /\
+    (forall tid t s, nth_error (c_threads c) tid = Some t -> holds t = Some s ->
+                     In (shard_of s, tid) (c_locks c)) /\
+    (forall sh tid, In (sh, tid) (c_locks c) ->
+                    exists t s, nth_error (c_threads c) tid = Some t /\ holds t = Some s /\ shard_of s = sh).
+
+  Definition Absent (c : cstate) : Prop :=
+    forall tid t s, nth_error (c_threads c) tid = Some t -> holds t = Some s ->
+                    t_pc t <> PFind s -> ~ In s (strs_of (c_map c)).
+
+  Definition PmapIn (c : cstate) : Prop :=
+    forall t s r k, In t (c_threads c) -> t_pc t = PMap s r k -> In (mkEntry r s k) (c_strs c).
+
+  Definition Half (c : cstate) : Prop :=
+    forall e, In e (c_strs c) ->
+              In e (c_map c) \/ exists t, In t (c_threads c) /\ half_inserted t = Some (e_str e, e_key e).
+
+  Definition KeysInv (c : cstate) : Prop :=
+    NoDup (keys_of (c_strs c) ++ drawn_keys c) /\
+    (forall k, In k (keys_of (c_strs c) ++ drawn_keys c) <-> k < N.min (c_key c) keycap).
+
+  Definition Answers (c : cstate) : Prop :=
+    forall t cl k, In t (c_threads c) -> In (cl, ROk k) (t_outs t) -> answer_ok c cl k.
+
+  Lemma JInv_LockInv c : JInv c -> LockInv c.
+  Proof. intros H. split; [|split]; apply H. Qed.
+
+  Lemma JInv_KeysInv c : JInv c -> KeysInv c.
+  Proof. intros H. split; apply H. Qed.
+
+  (* two threads that hold the lock of the same string are one thread *)
+  Lemma holders_same c m1 m2 u1 u2 s : LockInv c ->
+    nth_error (c_threads c) m1 = Some u1 -> nth_error (c_threads c) m2 = Some u2 ->
+    holds u1 = Some s -> holds u2 = Some s -> m1 = m2.
+  Proof.
+    intros (Hnd & Hh & _) H1 H2 Hs1 Hs2.
+    eapply locks_one_holder; eauto.
+  Qed.
+
+  (* ---------------------------------------------------------------- locks *)
+
+  Lemma locks_same c c' tid t t' : moves c c' tid t t' ->
+    c_locks c' = c_locks c -> holds t' = holds t -> LockInv c -> LockInv c'.
+  Proof.
+    intros Hmv Hl Hh (Hnd & Hhold & Hheld). pose proof Hmv as [Hn _].
+    split; [|split]; rewrite Hl.
+    - exact Hnd.
+    - intros m u s Hm Hs. destruct (mv_nth _ _ _ _ _ _ _ Hmv Hm) as [[-> ->]|[Hne Hm']].
+      + rewrite Hh in Hs. eauto.
+      + eauto.
+    - intros sh m Hin. destruct (Hheld _ _ Hin) as (u & s & Hu & Hs & Hsh).
+      destruct (Nat.eq_dec m tid) as [->|Hne].
+      + exists t', s. rewrite (mv_nth_new _ _ _ _ _ Hmv). rewrite Hh.
+        assert (u = t) by congruence. subst. auto.
+      + exists u, s. rewrite (mv_nth_other _ _ _ _ _ _ Hmv Hne). auto.
+  Qed.
+
+  Lemma locks_acquire c c' tid t t' s : moves c c' tid t t' ->
+    c_locks c' = (shard_of s, tid) :: c_locks c -> ~ In (shard_of s) (map fst (c_locks c)) ->
+    holds t = None -> holds t' = Some s -> LockInv c -> LockInv c'.
+  Proof.
+    intros Hmv Hl Hfree Hh Hh' (Hnd & Hhold & Hheld). pose proof Hmv as [Hn _].
+    split; [|split]; rewrite Hl.
+    - simpl. constructor; auto.
+    - intros m u s0 Hm Hs. destruct (mv_nth _ _ _ _ _ _ _ Hmv Hm) as [[-> ->]|[Hne Hm']].
+      + left. congruence.
+      + right. eauto.
+    - intros sh m [Heq|Hin].
+      + inversion Heq; subst. exists t', s. rewrite (mv_nth_new _ _ _ _ _ Hmv). auto.
+      + destruct (Hheld _ _ Hin) as (u & s0 & Hu & Hs & Hsh).
+        assert (Hne : m <> tid) by (intros ->; congruence).
+        exists u, s0. rewrite (mv_nth_other _ _ _ _ _ _ Hmv Hne). auto.
+  Qed.
+
+  Lemma locks_release c c' tid t t' : moves c c' tid t t' ->
+    c_locks c' = unlock c tid -> holds t' = None -> LockInv c -> LockInv c'.
+  Proof.
+    intros Hmv Hl Hh' (Hnd & Hhold & Hheld). pose proof Hmv as [Hn _].
+    split; [|split]; rewrite Hl.
+    - unfold unlock. now apply NoDup_map_filter.
+    - intros m u s Hm Hs. destruct (mv_nth _ _ _ _ _ _ _ Hmv Hm) as [[-> ->]|[Hne Hm']].
+      + congruence.
+      + apply In_unlock. split; eauto.
+    - intros sh m Hin. apply In_unlock in Hin as [Hin Hne].
+      destruct (Hheld _ _ Hin) as (u & s & Hu & Hs & Hsh).
+      exists u, s. rewrite (mv_nth_other _ _ _ _ _ _ Hmv Hne). auto.
+  Qed.
+
+  (* ---------------------------------------------------------------- generic frames *)
+
+  Lemma absent_frame c c' tid t t' : moves c c' tid t t' ->
+    c_map c' = c_map c ->
+    (forall s, holds t' = Some s -> t_pc t' <> PFind s -> ~ In s (strs_of (c_map c))) ->
+    Absent c -> Absent c'.
+  Proof.
+    intros Hmv Hm Hnew Hab m u s Hu Hs Hpc. rewrite Hm.
+    destruct (mv_nth _ _ _ _ _ _ _ Hmv Hu) as [[-> ->]|[Hne Hu']]; eauto.
+  Qed.
+
+  Lemma pmap_frame c c' tid t t' : moves c c' tid t t' ->
+    (forall e, In e (c_strs c) -> In e (c_strs c')) ->
+    (forall s r k, t_pc t' = PMap s r k -> In (mkEntry r s k) (c_strs c')) ->
+    PmapIn c -> PmapIn c'.
+  Proof.
+    intros Hmv Hincl Hnew Hp u s r k Hu Hpc.
+    destruct (mv_in _ _ _ _ _ _ Hmv Hu) as [->|Hu']; eauto.
+  Qed.
+
+  Lemma half_frame c c' tid t t' : moves c c' tid t t' ->
+    c_map c' = c_map c -> c_strs c' = c_strs c -> half_inserted t = None ->
+    Half c -> Half c'.
+  Proof.
+    intros Hmv Hm Hs Hh Hhalf e Hin. rewrite Hs in Hin. rewrite Hm.
+    destruct (Hhalf e Hin) as [H|(u & Hu & Hhu)]; auto.
+    right. destruct (mv_keep _ _ _ _ _ _ Hmv Hu) as [->|Hu']; [congruence|eauto].
+  Qed.
+
+  Lemma keys_frame c c' tid t t' : moves c c' tid t t' ->
+    c_strs c' = c_strs c -> drawn_key t' = drawn_key t ->
+    N.min (c_key c') keycap = N.min (c_key c) keycap ->
+    KeysInv c -> KeysInv c'.
+  Proof.
+    intros Hmv Hs Hd Hk [Hnd Hr]. unfold KeysInv.
+    rewrite (mv_drawn_same _ _ _ _ _ Hmv Hd), Hs, Hk. auto.
+  Qed.
+
+  Lemma answer_ok_mono c c' cl k :
+    (forall e, In e (c_map c) -> In e (c_map c')) -> answer_ok c cl k -> answer_ok c' cl k.
+  Proof. intros Hincl (s & Hcl & e & Hin & He). exists s. split; auto. exists e. auto. Qed.
+
+  Lemma answers_frame c c' tid t t' : moves c c' tid t t' ->
+    (forall e, In e (c_map c) -> In e (c_map c')) ->
+    (forall cl k, In (cl, ROk k) (t_outs t') -> In (cl, ROk k) (t_outs t) \/ answer_ok c' cl k) ->
+    Answers c -> Answers c'.
+  Proof.
+    intros Hmv Hincl Hnew Hans u cl k Hu Ho.
+    destruct (mv_in _ _ _ _ _ _ Hmv Hu) as [->|Hu'].
+    - destruct (Hnew _ _ Ho) as [Hold|Hok]; auto.
+      eapply answer_ok_mono; eauto. eapply Hans; eauto. eapply mv_in_old; eauto.
+    - eapply answer_ok_mono; eauto.
+  Qed.
+
+  Lemma call_frame c c' tid t t' : moves c c' tid t t' -> pc_call_ok t' ->
+    (forall u, In u (c_threads c) -> pc_call_ok u) -> (forall u, In u (c_threads c') -> pc_call_ok u).
+  Proof.
+    intros Hmv Hnew Hc u Hu. destruct (mv_in _ _ _ _ _ _ Hmv Hu) as [->|Hu']; auto.
+  Qed.
+
+  Definition Published (c : cstate) : Prop :=
+    forall e, In e (c_map c) ->
+      exists t cl, In t (c_threads c) /\ In (cl, ROk (e_key e)) (t_outs t) /\ intern_of cl (e_str e).
+
+  Lemma published_frame c c' tid t t' : moves c c' tid t t' ->
+    (forall x, In x (t_outs t) -> In x (t_outs t')) ->
+    (forall e, In e (c_map c') -> In e (c_map c) \/
+               exists cl, In (cl, ROk (e_key e)) (t_outs t') /\ intern_of cl (e_str e)) ->
+    Published c -> Published c'.
+  Proof.
+    intros Hmv Houts Hnew Hp e Hin.
+    destruct (Hnew e Hin) as [Hold|(cl & Ho & Hcl)].
+    - destruct (Hp e Hold) as (u & cl & Hu & Ho & Hcl).
+      destruct (mv_keep _ _ _ _ _ _ Hmv Hu) as [->|Hu'].
+      + exists t', cl. split; [eapply mv_in_new; eauto|]. auto.
+      + exists u, cl. auto.
+    - exists t', cl. split; [eapply mv_in_new; eauto|]. auto.
+  Qed.
+
+
+  (* ---------------------------------------------------------------- kinds of transitions *)
+
+  (* K1/K2: a move that publishes nothing: the thread goes to another program counter, holding
+     the same lock as before or acquiring the (free) lock of its string's shard *)
+  Lemma K_goto c c' tid t t' : moves c c' tid t t' ->
+    c_map c' = c_map c -> c_strs c' = c_strs c -> c_key c' = c_key c ->
+    ((c_locks c' = c_locks c /\ holds t' = holds t) \/
+     (exists s, c_locks c' = (shard_of s, tid) :: c_locks c /\
+                ~ In (shard_of s) (map fst (c_locks c)) /\ holds t = None /\ holds t' = Some s)) ->
+    (forall s, holds t' = Some s -> t_pc t' <> PFind s -> ~ In s (strs_of (c_map c))) ->
+    drawn_key t = None -> drawn_key t' = None ->
+    half_inserted t = None -> half_inserted t' = None ->
+    t_outs t' = t_outs t -> pc_call_ok t' ->
+    JInv' c -> JInv' c'.
+  Proof.
+    intros Hmv Hm Hs Hk Hlk Hab Hd Hd' Hh Hh' Ho Hcall [HJ HX].
+    assert (HL : LockInv c').
+    { destruct Hlk as [[Hl Hhold]|(s & Hl & Hfree & Hn & Hn')].
+      - eapply locks_same; eauto using JInv_LockInv.
+      - eapply locks_acquire; eauto using JInv_LockInv. }
+    assert (HK : KeysInv c').
+    { eapply keys_frame; eauto using JInv_KeysInv; congruence. }
+    split; constructor.
+    - apply HL.
+    - apply HL.
+    - apply HL.
+    - change (Absent c'). eapply absent_frame; eauto. exact (ji_absent _ _ _ HJ).
+    - rewrite Hm. apply HJ.
+    - rewrite Hm. apply HJ.
+    - rewrite Hs. apply HJ.
+    - rewrite Hs. apply HJ.
+    - rewrite Hm, Hs. apply HJ.
+    - change (PmapIn c'). eapply pmap_frame; eauto.
+      + rewrite Hs. auto.
+      + intros s r k Hpc. unfold half_inserted in Hh'. rewrite Hpc in Hh'. discriminate.
+      + exact (ji_pmap_in_strs _ _ _ HJ).
+    - change (Half c'). eapply half_frame; eauto. exact (ji_half _ _ _ HJ).
+    - apply HK.
+    - apply HK.
+    - change (Answers c'). eapply answers_frame; eauto.
+      + rewrite Hm. auto.
+      + intros cl k Hin. left. now rewrite <- Ho.
+      + exact (ji_answers _ _ _ HJ).
+    - eapply call_frame; eauto. exact (jx_call _ HX).
+    - change (Published c'). eapply published_frame; eauto.
+      + intros x. now rewrite Ho.
+      + intros e. rewrite Hm. auto.
+      + exact (jx_published _ HX).
+  Qed.
+
+  (* K3: a call returns without publishing anything *)
+  Lemma K_finish c c' tid t o :
+    moves c c' tid t (mkThread PIdle (t_call t) (t_prog t) ((t_call t, o) :: t_outs t)) ->
+    c_map c' = c_map c -> c_strs c' = c_strs c ->
+    N.min (c_key c') keycap = N.min (c_key c) keycap ->
+    c_locks c' = unlock c tid ->
+    drawn_key t = None -> half_inserted t = None ->
+    (forall k, o = ROk k -> answer_ok c (t_call t) k) ->
+    JInv' c -> JInv' c'.
+  Proof.
+    intros Hmv Hm Hs Hk Hl Hd Hh Hans [HJ HX].
+    assert (HL : LockInv c').
+    { eapply locks_release; eauto using JInv_LockInv. }
+    assert (HK : KeysInv c').
+    { eapply keys_frame; eauto using JInv_KeysInv. }
+    split; constructor.
+    - apply HL.
+    - apply HL.
+    - apply HL.
+    - change (Absent c'). eapply absent_frame; eauto.
+      + intros s Hhs. discriminate.
+      + exact (ji_absent _ _ _ HJ).
+    - rewrite Hm. apply HJ.
+    - rewrite Hm. apply HJ.
+    - rewrite Hs. apply HJ.
+    - rewrite Hs. apply HJ.
+    - rewrite Hm, Hs. apply HJ.
+    - change (PmapIn c'). eapply pmap_frame; eauto.
+      + rewrite Hs. auto.
+      + intros s r k Hpc. discriminate.
+      + exact (ji_pmap_in_strs _ _ _ HJ).
+    - change (Half c'). eapply half_frame; eauto. exact (ji_half _ _ _ HJ).
+    - apply HK.
+    - apply HK.
+    - change (Answers c'). eapply answers_frame; eauto.
+      + rewrite Hm. auto.
+      + intros cl k [Heq|Hin]; auto. right. inversion Heq; subst.
+        eapply answer_ok_mono; [|eapply Hans; eauto]. rewrite Hm. auto.
+      + exact (ji_answers _ _ _ HJ).
+    - eapply call_frame; eauto; [exact I|]. exact (jx_call _ HX).
+    - change (Published c'). eapply published_frame; eauto.
+      + intros x Hx. right. exact Hx.
+      + intros e. rewrite Hm. auto.
+      + exact (jx_published _ HX).
+  Qed.
+
+  Lemma NoDup_app_disjoint {A} (l1 l2 : list A) x : NoDup (l1 ++ l2) -> In x l1 -> In x l2 -> False.
+  Proof.
+    induction l1 as [|a l1 IH]; simpl; intros Hnd H1 H2; [contradiction|].
+    inversion Hnd as [|? ? Ha Hnd']; subst. destruct H1 as [->|H1]; auto.
+    apply Ha. apply in_or_app. auto.
+  Qed.
+
+  Lemma NoDup_snoc {A} (l : list A) x : NoDup l -> ~ In x l -> NoDup (l ++ [x]).
+  Proof.
+    intros Hnd Hx. apply (NoDup_Add (a := x) (l := l)); auto.
+    rewrite <- (app_nil_r l) at 1. apply Add_app.
+  Qed.
+
+  Lemma mv_drawn_add c c' tid t t' k : moves c c' tid t t' ->
+    drawn_key t = None -> drawn_key t' = Some k -> Permutation (drawn_keys c') (k :: drawn_keys c).
+  Proof.
+    intros [Hn Ht] Hd Hd'. unfold drawn_keys. rewrite Ht.
+    destruct (flat_map_set_nth_perm
+                (fun t => match drawn_key t with Some k => [k] | None => [] end) tid t' _ _ Hn)
+      as (rest & H1 & H2).
+    rewrite Hd in H1. rewrite Hd' in H2. simpl in H1, H2.
+    rewrite H2. constructor. now symmetry.
+  Qed.
+
+  Lemma mv_drawn_remove c c' tid t t' k : moves c c' tid t t' ->
+    drawn_key t = Some k -> drawn_key t' = None -> Permutation (drawn_keys c) (k :: drawn_keys c').
+  Proof.
+    intros [Hn Ht] Hd Hd'. unfold drawn_keys. rewrite Ht.
+    destruct (flat_map_set_nth_perm
+                (fun t => match drawn_key t with Some k => [k] | None => [] end) tid t' _ _ Hn)
+      as (rest & H1 & H2).
+    rewrite Hd in H1. rewrite Hd' in H2. simpl in H1, H2.
+    rewrite H1. constructor. now symmetry.
+  Qed.
+
+  (* K4: the thread draws the next key (the counter is below the capacity) *)
+  Lemma K_draw c c' tid t t' s r : moves c c' tid t t' ->
+    c_map c' = c_map c -> c_strs c' = c_strs c -> c_locks c' = c_locks c ->
+    c_key c' = c_key c + 1 -> c_key c < keycap ->
+    t_pc t' = PStrs s r (c_key c) -> holds t = Some s -> t_pc t <> PFind s ->
+    drawn_key t = None -> half_inserted t = None ->
+    t_outs t' = t_outs t -> pc_call_ok t' ->
+    JInv' c -> JInv' c'.
+  Proof.
+    intros Hmv Hm Hs Hl Hk Hlt Hpc' Hhold Hpc Hd Hh Ho Hcall [HJ HX].
+    pose proof Hmv as [Hn _].
+    assert (Hhold' : holds t' = Some s) by (unfold holds; now rewrite Hpc').
+    assert (HL : LockInv c').
+    { eapply locks_same; eauto using JInv_LockInv. congruence. }
+    assert (HP : Permutation (keys_of (c_strs c') ++ drawn_keys c')
+                             (c_key c :: keys_of (c_strs c) ++ drawn_keys c)).
+    { rewrite Hs. rewrite (mv_drawn_add c c' tid t t' (c_key c) Hmv Hd).
+      - symmetry. apply Permutation_middle.
+      - unfold drawn_key. now rewrite Hpc'. }
+    destruct (JInv_KeysInv _ HJ) as [Hnd Hr].
+    split; constructor.
+    - apply HL.
+    - apply HL.
+    - apply HL.
+    - change (Absent c'). eapply absent_frame; eauto.
+      + intros s0 Hs0 _. assert (s0 = s) by congruence. subst.
+        exact (ji_absent _ _ _ HJ tid t s Hn Hhold Hpc).
+      + exact (ji_absent _ _ _ HJ).
+    - rewrite Hm. apply HJ.
+    - rewrite Hm. apply HJ.
+    - rewrite Hs. apply HJ.
+    - rewrite Hs. apply HJ.
+    - rewrite Hm, Hs. apply HJ.
+    - change (PmapIn c'). eapply pmap_frame; eauto.
+      + rewrite Hs. auto.
+      + intros s0 r0 k0 Hpc0. congruence.
+      + exact (ji_pmap_in_strs _ _ _ HJ).
+    - change (Half c'). eapply half_frame; eauto. exact (ji_half _ _ _ HJ).
+    - eapply Permutation_NoDup; [symmetry; exact HP|]. constructor; auto.
+      rewrite Hr. lia.
+    - intros k. split.
+      + intros Hin. apply (Permutation_in _ HP) in Hin. destruct Hin as [<-|Hin]; [lia|].
+        apply Hr in Hin. lia.
+      + intros Hlt'. apply (Permutation_in _ (Permutation_sym HP)).
+        destruct (N.eq_dec k (c_key c)) as [->|Hne]; [left; auto|right]. apply Hr. lia.
+    - change (Answers c'). eapply answers_frame; eauto.
+      + rewrite Hm. auto.
+      + intros cl k Hin. left. now rewrite <- Ho.
+      + exact (ji_answers _ _ _ HJ).
+    - eapply call_frame; eauto. exact (jx_call _ HX).
+    - change (Published c'). eapply published_frame; eauto.
+      + intros x. now rewrite Ho.
+      + intros e. rewrite Hm. auto.
+      + exact (jx_published _ HX).
+  Qed.
+
+
+  Lemma keys_of_app l1 l2 : keys_of (l1 ++ l2) = keys_of l1 ++ keys_of l2.
+  Proof. apply map_app. Qed.
+  Lemma strs_of_app l1 l2 : strs_of (l1 ++ l2) = strs_of l1 ++ strs_of l2.
+  Proof. apply map_app. Qed.
+
+  Lemma half_inserted_pc u s k : half_inserted u = Some (s, k) -> exists r, t_pc u = PMap s r k.
+  Proof.
+    unfold half_inserted. destruct (t_pc u); intros H; try discriminate.
+    inversion H; subst. eauto.
+  Qed.
+
+  (* the string a lock holder (past its find) is inserting is in neither map *)
+  Lemma holder_str_not_in_strs c tid t s : JInv c ->
+    nth_error (c_threads c) tid = Some t -> holds t = Some s -> t_pc t <> PFind s ->
+    half_inserted t = None -> ~ In s (strs_of (c_strs c)).
+  Proof.
+    intros HJ Hn Hhold Hpc Hh Hin.
+    apply in_map_iff in Hin as (e & He & Hin).
+    destruct (ji_half _ _ _ HJ e Hin) as [Hm|(u & Hu & Hhu)].
+    - apply (ji_absent _ _ _ HJ tid t s Hn Hhold Hpc). rewrite <- He. now apply in_map.
+    - rewrite He in Hhu. destruct (half_inserted_pc _ _ _ Hhu) as (r & Hpcu).
+      apply In_nth_error in Hu as (m & Hm).
+      assert (m = tid).
+      { eapply (holders_same c m tid u t s); eauto using JInv_LockInv.
+        unfold holds. now rewrite Hpcu. }
+      subst. assert (u = t) by congruence. subst. congruence.
+  Qed.
+
+  (* K5: key -> string first *)
+  Lemma K_strs c c' tid t s r k :
+    moves c c' tid t (mkThread (PMap s r k) (t_call t) (t_prog t) (t_outs t)) ->
+    t_pc t = PStrs s r k ->
+    c_map c' = c_map c -> c_key c' = c_key c -> c_locks c' = c_locks c ->
+    c_strs c' = strs_put (mkEntry r s k) (c_strs c) ->
+    JInv' c -> JInv' c'.
+  Proof.
+    intros Hmv Hpc Hm Hk Hl Hs [HJ HX]. pose proof Hmv as [Hn _].
+    set (t' := mkThread (PMap s r k) (t_call t) (t_prog t) (t_outs t)) in *.
+    assert (Hhold : holds t = Some s) by (unfold holds; now rewrite Hpc).
+    assert (Hnf : t_pc t <> PFind s) by congruence.
+    assert (Hd : drawn_key t = Some k) by (unfold drawn_key; now rewrite Hpc).
+    assert (Hh : half_inserted t = None) by (unfold half_inserted; now rewrite Hpc).
+    destruct (JInv_KeysInv _ HJ) as [Hnd Hr].
+    assert (Hkd : In k (drawn_keys c)).
+    { unfold drawn_keys. apply in_flat_map. exists t. split; [eapply nth_error_In; eauto|].
+      rewrite Hd. left; auto. }
+    assert (Hknew : ~ In k (keys_of (c_strs c))).
+    { intros Hin. eapply NoDup_app_disjoint; eauto. }
+    assert (Hs' : c_strs c' = c_strs c ++ [mkEntry r s k]).
+    { rewrite Hs. unfold strs_put. f_equal. apply filter_all. intros x Hx. simpl.
+      apply negb_true_iff, N.eqb_neq. intros Heq. apply Hknew. rewrite <- Heq. now apply in_map. }
+    assert (Hsnew : ~ In s (strs_of (c_strs c))).
+    { eapply holder_str_not_in_strs; eauto. }
+    assert (HL : LockInv c').
+    { eapply locks_same; eauto using JInv_LockInv. }
+    assert (HP : Permutation (keys_of (c_strs c') ++ drawn_keys c')
+                             (keys_of (c_strs c) ++ drawn_keys c)).
+    { rewrite Hs', keys_of_app, <- app_assoc. simpl. apply Permutation_app_head.
+      symmetry. eapply mv_drawn_remove; eauto. }
+    split; constructor.
+    - apply HL.
+    - apply HL.
+    - apply HL.
+    - change (Absent c'). eapply absent_frame; eauto.
+      + intros s0 Hs0 _. assert (s0 = s) by (cbn in Hs0; congruence). subst.
+        exact (ji_absent _ _ _ HJ tid t s Hn Hhold Hnf).
+      + exact (ji_absent _ _ _ HJ).
+    - rewrite Hm. apply HJ.
+    - rewrite Hm. apply HJ.
+    - rewrite Hs', keys_of_app. apply NoDup_snoc; auto. apply HJ.
+    - rewrite Hs', strs_of_app. apply NoDup_snoc; auto. apply HJ.
+    - intros e. rewrite Hm, Hs'. intros Hin. apply in_or_app. left. now apply (ji_map_in_strs _ _ _ HJ).
+    - change (PmapIn c'). eapply pmap_frame; eauto.
+      + intros e Hin. rewrite Hs'. apply in_or_app. auto.
+      + intros s0 r0 k0 Hpc0. cbn in Hpc0. inversion Hpc0; subst.
+        rewrite Hs'. apply in_or_app. right. left. auto.
+      + exact (ji_pmap_in_strs _ _ _ HJ).
+    - intros e. rewrite Hs', Hm. intros Hin. apply in_app_or in Hin as [Hin|[<-|[]]].
+      + destruct (ji_half _ _ _ HJ e Hin) as [H|(u & Hu & Hhu)]; auto.
+        right. destruct (mv_keep _ _ _ _ _ _ Hmv Hu) as [->|Hu']; [congruence|eauto].
+      + right. exists t'. split; [eapply mv_in_new; eauto|]. reflexivity.
+    - eapply Permutation_NoDup; [symmetry; exact HP|]. exact Hnd.
+    - intros x. rewrite Hk, <- Hr. split; apply Permutation_in; auto. now symmetry.
+    - change (Answers c'). eapply answers_frame; eauto.
+      + rewrite Hm. auto.
+      + exact (ji_answers _ _ _ HJ).
+    - eapply call_frame; eauto; [|exact (jx_call _ HX)].
+      pose proof (jx_call _ HX t (mv_in_old _ _ _ _ _ Hmv)) as Hc.
+      unfold pc_call_ok in *. rewrite Hpc in Hc. exact Hc.
+    - change (Published c'). eapply published_frame; eauto.
+      + intros e. rewrite Hm. auto.
+      + exact (jx_published _ HX).
+  Qed.
+
+  (* K6: ... then string -> key, and the call returns the key *)
+  Lemma K_map c c' tid t s r k :
+    moves c c' tid t (mkThread PIdle (t_call t) (t_prog t) ((t_call t, ROk k) :: t_outs t)) ->
+    t_pc t = PMap s r k ->
+    c_map c' = c_map c ++ [mkEntry r s k] -> c_strs c' = c_strs c -> c_key c' = c_key c ->
+    c_locks c' = unlock c tid ->
+    JInv' c -> JInv' c'.
+  Proof.
+    intros Hmv Hpc Hm Hs Hk Hl [HJ HX]. pose proof Hmv as [Hn _].
+    set (t' := mkThread PIdle (t_call t) (t_prog t) ((t_call t, ROk k) :: t_outs t)) in *.
+    assert (Hhold : holds t = Some s) by (unfold holds; now rewrite Hpc).
+    assert (Hnf : t_pc t <> PFind s) by congruence.
+    assert (Hd : drawn_key t = None) by (unfold drawn_key; now rewrite Hpc).
+    assert (Hh : half_inserted t = Some (s, k)) by (unfold half_inserted; now rewrite Hpc).
+    assert (Hcall : intern_of (t_call t) s).
+    { pose proof (jx_call _ HX t (mv_in_old _ _ _ _ _ Hmv)) as Hc.
+      unfold pc_call_ok in Hc. rewrite Hpc in Hc. exact Hc. }
+    assert (He : In (mkEntry r s k) (c_strs c)).
+    { eapply (ji_pmap_in_strs _ _ _ HJ); eauto. eapply mv_in_old; eauto. }
+    assert (Hsnew : ~ In s (strs_of (c_map c))).
+    { exact (ji_absent _ _ _ HJ tid t s Hn Hhold Hnf). }
+    assert (Hknew : ~ In k (keys_of (c_map c))).
+    { intros Hin. apply in_map_iff in Hin as (e & Hek & Hin).
+      assert (e = mkEntry r s k).
+      { apply (NoDup_map_inj_in e_key (c_strs c)); auto.
+        - apply HJ.
+        - now apply (ji_map_in_strs _ _ _ HJ). }
+      subst e. apply Hsnew. change s with (e_str (mkEntry r s k)). now apply in_map. }
+    assert (HL : LockInv c').
+    { eapply locks_release; eauto using JInv_LockInv. }
+    assert (HK : KeysInv c').
+    { eapply keys_frame; eauto using JInv_KeysInv. congruence. }
+    split; constructor.
+    - apply HL.
+    - apply HL.
+    - apply HL.
+    - intros m u s0 Hu Hs0 Hpc0. rewrite Hm, strs_of_app. intros Hin.
+      destruct (mv_nth _ _ _ _ _ _ _ Hmv Hu) as [[-> ->]|[Hne Hu']]; [discriminate|].
+      apply in_app_or in Hin as [Hin|[<-|[]]].
+      + exact (ji_absent _ _ _ HJ m u s0 Hu' Hs0 Hpc0 Hin).
+      + simpl in Hs0. apply Hne.
+        eapply (holders_same c m tid u t s); eauto using JInv_LockInv.
+    - rewrite Hm, strs_of_app. apply NoDup_snoc; auto. apply HJ.
+    - rewrite Hm, keys_of_app. apply NoDup_snoc; auto. apply HJ.
+    - rewrite Hs. apply HJ.
+    - rewrite Hs. apply HJ.
+    - intros e. rewrite Hm, Hs. intros Hin. apply in_app_or in Hin as [Hin|[<-|[]]]; auto.
+      now apply (ji_map_in_strs _ _ _ HJ).
+    - change (PmapIn c'). eapply pmap_frame; eauto.
+      + rewrite Hs. auto.
+      + intros s0 r0 k0 Hpc0. discriminate.
+      + exact (ji_pmap_in_strs _ _ _ HJ).
+    - intros e. rewrite Hs, Hm. intros Hin.
+      destruct (ji_half _ _ _ HJ e Hin) as [H|(u & Hu & Hhu)].
+      + left. apply in_or_app. auto.
+      + destruct (mv_keep _ _ _ _ _ _ Hmv Hu) as [->|Hu']; [|eauto].
+        left. apply in_or_app. right. left.
+        rewrite Hh in Hhu. injection Hhu as Hes Hek.
+        apply (NoDup_map_inj_in e_key (c_strs c)); auto. apply HJ.
+    - apply HK.
+    - apply HK.
+    - change (Answers c'). eapply answers_frame; eauto.
+      + intros e Hin. rewrite Hm. apply in_or_app. auto.
+      + intros cl k0 [Heq|Hin]; auto. right. inversion Heq; subst.
+        exists s. split.
+        * destruct Hcall as [Hc|Hc]; auto.
+        * exists (mkEntry r s k0). split; auto. rewrite Hm. apply in_or_app. right. left. auto.
+      + exact (ji_answers _ _ _ HJ).
+    - eapply call_frame; eauto; [exact I|]. exact (jx_call _ HX).
+    - change (Published c'). eapply published_frame; eauto.
+      + intros x Hx. right. exact Hx.
+      + intros e. rewrite Hm. intros Hin. apply in_app_or in Hin as [Hin|[<-|[]]]; auto.
+        right. exists (t_call t). split; [left; reflexivity|exact Hcall].
+      + exact (jx_published _ HX).
+  Qed.
+
+
+  (* ---------------------------------------------------------------- the arena sub-steps *)
+
+  (* what one event of store_str does to the interner's own state: nothing, except that the
+     thread moves inside PStore / on to PKeyAdd, or gives up with MemoryLimitReached (and then
+     releases its lock).  Holds for the repaired ([atomic = true]) and the legacy arena alike. *)
+  Lemma store_step_shape atomic c tid t s p ch :
+    let c' := store_step atomic c tid t s p ch in
+    c_map c' = c_map c /\ c_strs c' = c_strs c /\ c_key c' = c_key c /\
+    ((c_locks c' = c_locks c /\
+      exists p', c_threads c' = set_nth tid (mkThread p' (t_call t) (t_prog t) (t_outs t)) (c_threads c) /\
+                 ((exists q, p' = PStore s q) \/ (exists r, p' = PKeyAdd s r))) \/
+     (c_locks c' = unlock c tid /\
+      c_threads c' = set_nth tid (mkThread PIdle (t_call t) (t_prog t)
+                                           ((t_call t, RErr MemoryLimitReached) :: t_outs t))
+                             (c_threads c))).
+  Proof.
+    intros c'. subst c'. unfold store_step.
+    destruct p;
+      repeat match goal with
+             | |- context [match ?x with _ => _ end] => destruct x
+             end;
+      cbn; (split; [reflexivity|split; [reflexivity|split; [reflexivity|]]]);
+      first [ right; split; reflexivity
+            | left; split; [reflexivity|]; eexists; split; [reflexivity|];
+              first [left; eexists; reflexivity | right; eexists; reflexivity] ].
+  Qed.
+
+
+  (* ---------------------------------------------------------------- 2. one step *)
+
+  (* a thread that holds nothing and is not blocked on shard [sh] finds it free *)
+  Lemma not_blocked_free c tid t sh : JInv c ->
+    nth_error (c_threads c) tid = Some t -> holds t = None ->
+    match lock_holder c sh with Some h => negb (Nat.eqb h tid) | None => false end = false ->
+    ~ In sh (map fst (c_locks c)).
+  Proof.
+    intros HJ Hn Hh Hb. destruct (lock_holder c sh) as [h|] eqn:E.
+    - apply negb_false_iff, Nat.eqb_eq in Hb. subst h. apply lock_holder_some in E.
+      destruct (ji_locks_held _ _ _ HJ _ _ E) as (u & s & Hu & Hs & _). congruence.
+    - now apply lock_holder_none.
+  Qed.
+
+  Lemma unlock_own_new c tid sh :
+    unlock (with_locks c ((sh, tid) :: c_locks c)) tid = unlock c tid.
+  Proof. unfold unlock. cbn. now rewrite Nat.eqb_refl. Qed.
+
+  Lemma answer_ok_get c s k cl : AInv c -> JInv c -> map_get c s = Some k ->
+    (cl = CIntern s \/ (exists a, cl = CInternStatic a s) \/ cl = CGet s) -> answer_ok c cl k.
+  Proof.
+    intros HA HJ Hg Hcl. apply (map_get_some c s k HA HJ) in Hg as (e & Hin & Hs & Hk).
+    exists s. split; auto. exists e. auto.
+  Qed.
+
+  Ltac pcs Hpc :=
+    unfold holds, drawn_key, half_inserted, pc_call_ok in *;
+    cbn [t_pc t_call t_prog t_outs] in *; rewrite ?Hpc in *.
+
+  (* The step theorem.  It needs the storage invariant of the pre-state only (to read the
+     lookups through ghost strings), and holds for the legacy arena ([atomic = false]) too. *)
+  Theorem step_gen_JInv' atomic c c' tid ch :
+    AInv c -> JInv' c -> step_gen atomic c tid ch = Some c' -> JInv' c'.
+  Proof.
+    intros HA HJ' Hstep. pose proof HJ' as [HJ HX]. unfold Conc.step_gen in Hstep.
+    destruct (nth_error (c_threads c) tid) as [t|] eqn:Hn; [|discriminate].
+    destruct (blocked c tid (t_pc t)) eqn:Hb; [discriminate|].
+    pose proof (jx_call _ HX t (nth_error_In _ _ Hn)) as Hcall.
+    destruct (t_pc t) eqn:Hpc.
+    - (* PIdle *)
+      destruct (t_prog t) as [|cl rest] eqn:Hprog; [discriminate|]. injection Hstep as <-.
+      eapply (K_goto c _ tid t (mkThread (pc_of_call cl) cl rest (t_outs t))); eauto;
+        try (split; [exact Hn|reflexivity]); try reflexivity.
+      + left. split; [reflexivity|]. pcs Hpc. destruct cl; reflexivity.
+      + intros s Hs. pcs Hpc. destruct cl; discriminate.
+      + pcs Hpc. reflexivity.
+      + pcs Hpc. destruct cl; reflexivity.
+      + pcs Hpc. reflexivity.
+      + pcs Hpc. destruct cl; reflexivity.
+      + pcs Hpc. destruct cl; cbn; auto.
+    - (* PFast *)
+      destruct c0 as [s|a s|s| | |]; try discriminate; injection Hstep as <-.
+      + destruct (map_get c s) as [k|] eqn:Hg.
+        * eapply (K_finish c _ tid t (ROk k)); eauto;
+            try (split; [exact Hn|reflexivity]); try reflexivity; try (pcs Hpc; reflexivity).
+          intros k0 Hk0. injection Hk0 as <-. pcs Hpc. eapply answer_ok_get; eauto.
+        * eapply (K_goto c _ tid t (mkThread (PLock s) (t_call t) (t_prog t) (t_outs t))); eauto;
+            try (split; [exact Hn|reflexivity]); try reflexivity; try (pcs Hpc; reflexivity).
+          -- left. split; [reflexivity|]. pcs Hpc. reflexivity.
+          -- intros s0 Hs0. discriminate.
+          -- pcs Hpc. exact Hcall.
+      + destruct (map_get c s) as [k|] eqn:Hg.
+        * eapply (K_finish c _ tid t (ROk k)); eauto;
+            try (split; [exact Hn|reflexivity]); try reflexivity; try (pcs Hpc; reflexivity).
+          intros k0 Hk0. injection Hk0 as <-. pcs Hpc. eapply answer_ok_get; eauto.
+        * eapply (K_goto c _ tid t (mkThread (PEntry a s) (t_call t) (t_prog t) (t_outs t))); eauto;
+            try (split; [exact Hn|reflexivity]); try reflexivity; try (pcs Hpc; reflexivity).
+          -- left. split; [reflexivity|]. pcs Hpc. reflexivity.
+          -- intros s0 Hs0. discriminate.
+          -- pcs Hpc. exact Hcall.
+      + eapply (K_finish c _ tid t); eauto;
+          try (split; [exact Hn|reflexivity]); try reflexivity; try (pcs Hpc; reflexivity).
+        intros k0 Hk0. destruct (map_get c s) as [k|] eqn:Hg; [|discriminate].
+        injection Hk0 as <-. pcs Hpc. eapply answer_ok_get; eauto.
+    - (* PLock *)
+      injection Hstep as <-.
+      eapply (K_goto c _ tid t (mkThread (PFind s) (t_call t) (t_prog t) (t_outs t))); eauto;
+        try (split; [exact Hn|reflexivity]); try reflexivity; try (pcs Hpc; reflexivity).
+      + right. exists s. split; [reflexivity|]. split; [|split; pcs Hpc; reflexivity].
+        eapply not_blocked_free; eauto. pcs Hpc. reflexivity.
+      + intros s0 Hs0 Hne. exfalso. apply Hne. cbn in *. congruence.
+      + pcs Hpc. exact Hcall.
+    - (* PFind *)
+      injection Hstep as <-.
+      destruct (map_get c s) as [k|] eqn:Hg.
+      + eapply (K_finish c _ tid t (ROk k)); eauto;
+          try (split; [exact Hn|reflexivity]); try reflexivity; try (pcs Hpc; reflexivity).
+        intros k0 Hk0. injection Hk0 as <-. pcs Hpc. eapply answer_ok_get; eauto.
+      + apply (map_get_none c s HA HJ) in Hg.
+        destruct s as [|b s].
+        * eapply (K_goto c _ tid t (mkThread (PKeyAdd [] REmpty) (t_call t) (t_prog t) (t_outs t))); eauto;
+            try (split; [exact Hn|reflexivity]); try reflexivity; try (pcs Hpc; reflexivity).
+          -- left. split; [reflexivity|]. pcs Hpc. reflexivity.
+          -- intros s0 Hs0 _. cbn in Hs0. injection Hs0 as <-. exact Hg.
+          -- pcs Hpc. exact Hcall.
+        * eapply (K_goto c _ tid t (mkThread (PStore (b :: s) SHead) (t_call t) (t_prog t) (t_outs t))); eauto;
+            try (split; [exact Hn|reflexivity]); try reflexivity; try (pcs Hpc; reflexivity).
+          -- left. split; [reflexivity|]. pcs Hpc. reflexivity.
+          -- intros s0 Hs0 _. cbn in Hs0. injection Hs0 as <-. exact Hg.
+          -- pcs Hpc. exact Hcall.
+    - (* PStore *)
+      injection Hstep as <-.
+      destruct (store_step_shape atomic c tid t s p ch) as (Hm & Hs & Hk & Hcase).
+      assert (Hab : ~ In s (strs_of (c_map c))).
+      { apply (ji_absent _ _ _ HJ tid t s Hn); pcs Hpc; congruence. }
+      destruct Hcase as [(Hl & p' & Hthr & Hp')|(Hl & Hthr)].
+      + eapply (K_goto c _ tid t (mkThread p' (t_call t) (t_prog t) (t_outs t))); eauto;
+          try (split; [exact Hn|exact Hthr]); try reflexivity; try (pcs Hpc; reflexivity).
+        * left. split; [exact Hl|]. pcs Hpc. destruct Hp' as [(q & ->)|(r & ->)]; reflexivity.
+        * intros s0 Hs0 _. pcs Hpc. destruct Hp' as [(q & ->)|(r & ->)]; injection Hs0 as <-; exact Hab.
+        * pcs Hpc. destruct Hp' as [(q & ->)|(r & ->)]; reflexivity.
+        * pcs Hpc. destruct Hp' as [(q & ->)|(r & ->)]; reflexivity.
+        * pcs Hpc. destruct Hp' as [(q & ->)|(r & ->)]; exact Hcall.
+      + eapply (K_finish c _ tid t (RErr MemoryLimitReached)); eauto;
+          try (split; [exact Hn|exact Hthr]); try (pcs Hpc; reflexivity).
+        * now rewrite Hk.
+        * intros k0 Hk0. discriminate.
+    - (* PKeyAdd *)
+      injection Hstep as <-. unfold Conc.try_key.
+      destruct (c_key c <? keycap) eqn:Hlt.
+      + apply N.ltb_lt in Hlt.
+        eapply (K_draw c _ tid t (mkThread (PStrs s r (c_key c)) (t_call t) (t_prog t) (t_outs t)) s r); eauto;
+          try (split; [exact Hn|reflexivity]); try reflexivity; try (pcs Hpc; reflexivity).
+        * pcs Hpc. congruence.
+        * pcs Hpc. left. exact Hcall.
+      + apply N.ltb_ge in Hlt.
+        eapply (K_finish c _ tid t (RErr KeySpaceExhaustion)); eauto;
+          try (split; [exact Hn|reflexivity]); try reflexivity; try (pcs Hpc; reflexivity).
+        * cbn. lia.
+        * intros k0 Hk0. discriminate.
+    - (* PStrs *)
+      injection Hstep as <-.
+      eapply (K_strs c _ tid t s r k); eauto; try (split; [exact Hn|reflexivity]); reflexivity.
+    - (* PMap *)
+      injection Hstep as <-.
+      eapply (K_map c _ tid t s r k); eauto; try (split; [exact Hn|reflexivity]); reflexivity.
+    - (* PEntry *)
+      injection Hstep as <-.
+      assert (Hfree : ~ In (shard_of s) (map fst (c_locks c))).
+      { eapply not_blocked_free; eauto. pcs Hpc. reflexivity. }
+      destruct (map_get c s) as [k|] eqn:Hg.
+      + eapply (K_finish c _ tid t (ROk k)); eauto;
+          try (split; [exact Hn|reflexivity]); try reflexivity; try (pcs Hpc; reflexivity).
+        * apply unlock_own_new.
+        * intros k0 Hk0. injection Hk0 as <-. pcs Hpc. eapply answer_ok_get; eauto.
+      + apply (map_get_none c s HA HJ) in Hg.
+        eapply (K_goto c _ tid t (mkThread (PSKeyAdd addr s) (t_call t) (t_prog t) (t_outs t))); eauto;
+          try (split; [exact Hn|reflexivity]); try reflexivity; try (pcs Hpc; reflexivity).
+        * right. exists s. split; [reflexivity|]. split; [exact Hfree|split; pcs Hpc; reflexivity].
+        * intros s0 Hs0 _. cbn in Hs0. injection Hs0 as <-. exact Hg.
+        * pcs Hpc. exact Hcall.
+    - (* PSKeyAdd *)
+      injection Hstep as <-. unfold Conc.try_key.
+      destruct (c_key c <? keycap) eqn:Hlt.
+      + apply N.ltb_lt in Hlt.
+        eapply (K_draw c _ tid t (mkThread (PStrs s (RStatic addr s) (c_key c)) (t_call t) (t_prog t) (t_outs t))
+                       s (RStatic addr s)); eauto;
+          try (split; [exact Hn|reflexivity]); try reflexivity; try (pcs Hpc; reflexivity).
+        * pcs Hpc. congruence.
+        * pcs Hpc. right. eauto.
+      + apply N.ltb_ge in Hlt.
+        eapply (K_finish c _ tid t (RErr KeySpaceExhaustion)); eauto;
+          try (split; [exact Hn|reflexivity]); try reflexivity; try (pcs Hpc; reflexivity).
+        * cbn. lia.
+        * intros k0 Hk0. discriminate.
+    - (* PResolve *)
+      injection Hstep as <-.
+      eapply (K_finish c _ tid t); eauto;
+        try (split; [exact Hn|reflexivity]); try reflexivity; try (pcs Hpc; reflexivity).
+      intros k0 Hk0. destruct (strs_get c k); [|discriminate].
+      destruct (read (as_arena c) s); discriminate.
+    - (* PSetLimit *)
+      injection Hstep as <-.
+      eapply (K_finish c _ tid t RUnit); eauto;
+        try (split; [exact Hn|reflexivity]); try reflexivity; try (pcs Hpc; reflexivity).
+      intros k0 Hk0. discriminate.
+    - (* PUsage *)
+      injection Hstep as <-.
+      eapply (K_finish c _ tid t (RNum (c_usage c))); eauto;
+        try (split; [exact Hn|reflexivity]); try reflexivity; try (pcs Hpc; reflexivity).
+      intros k0 Hk0. discriminate.
+  Qed.
+
+End Proofs.
